@@ -6,7 +6,7 @@ TRUSTED = [stubs.A_SOLVER]
 ASSUMPTIONS = [stubs.A_SOLVER, "A4 (paper-level, not proved): a positive conserving flow on a DAG has a decomposition with at most |E|-|V|+2 paths; "
                "every component of get_lowerbound_k is a lower bound on the optimum"]
 EXPLANATION = ("Proved (PyVC, unbounded): the search loop of MinFlowDecomp.solve starts at the lower bound, reaches a k that always suffices, accepts only a proven "
-               "optimal sub-model and never skips an inconclusive k; the sliding-window lower bound _get_lowerbound_with_subgraph_scanning hands every window to a sub-model on that window's subgraph (valid range of the topological order, same parameters, exactly the ignored edges inside the subgraph, scanning switched off) and returns the maximum number of paths over the solved windows (or None). NOT proved: minimality over all decompositions and the correctness of the lower bounds; "
+               "optimal sub-model and never skips an inconclusive k; the sliding-window lower bound _get_lowerbound_with_subgraph_scanning hands every window to a sub-model on that window's subgraph (valid range of the topological order, same parameters, exactly the ignored edges inside the subgraph, scanning switched off) and returns the maximum number of paths over the solved windows (or None); get_lowerbound_k is the maximum of its components (option, ceil(log2(#distinct values of the counted edges)), width without synthetic and ignored edges, the two optional bounds) and is cached. NOT proved: minimality over all decompositions and the correctness of the lower bounds; "
                "these are decided by the BOUNDED stand-in (real API + HiGHS vs an explicit-path oracle on an exhaustive small universe).")
 
 
